@@ -29,7 +29,7 @@ S1F1 W H->E AreYouThere .                       // R U there
 S1F1 W H<-E AreYouThereE .
 S1F2 H<-E OnLineDataE <L <A mdln> <A softrev>>.
 S1F2 H->E OnLineDataH <L>.
-S1F3 [W] H->E StatusReq <L <U4 svid> ...>.      /* selected status request */
+S1F3 [W] H->E StatusReq <L <U4 svid> ...>.      // selected status request
 S1F3 [W] H->E StatusReq0 <L>.
 S1F3 W H->E BadStatusReq <A "x">.
 S1F4 H<-E StatusData <L sv ...>.
